@@ -56,6 +56,10 @@ def rand_network(rng):
                 add((i, j), (i + 1, j + 1))
     if not edges:
         add((0, 0), (1, 0))
+    if rng.random() < 0.25:                                             # a loop edge (roundabout, cul-de-sac loop): closed geometry, one node at both ends
+        a = rng.choice(sorted(nodes)); pa = nodes[a]; r = rng.choice([2.0, 3.5, 5.0])
+        geom = [pa, (round(pa[0] + r, 3), round(pa[1] + 0.5, 3)), (round(pa[0] + r, 3), round(pa[1] + r, 3)), (round(pa[0] - 0.5, 3), round(pa[1] + r, 3)), pa]
+        edges.append({'s': '%d_%d' % a, 't': '%d_%d' % a, 'geom': [list(p) for p in geom], 'o': rng.choice([0, 1, -1])})
     return edges
 
 
